@@ -110,7 +110,22 @@ class Interval:
 
     # -- helpers
     def ty_range(self, local):
+        if isinstance(local, tuple):
+            return INT_RANGE.get(getattr(self, "_key_ty", {}).get(local))
         return INT_RANGE.get(self.body.local_ty(local))
+
+    def payload_key(self, op):
+        """State key of an integer payload read in place (`(_4 as Some).0` in `matches!(opt, Some(0x80..=0x9f))`), or None."""
+        if not is_place(op):
+            return None
+        pr = op["p"]["pr"]
+        if len(pr) == 2 and pr[0]["k"] == "downcast" and pr[1]["k"] == "field" and pr[1].get("ty") in INT_RANGE and self.body.local_ty(op["p"]["l"]).lstrip("&") != "rmp::Marker":
+            key = (op["p"]["l"], f"{pr[0].get('variant')}.{pr[1].get('name')}")
+            if not hasattr(self, "_key_ty"):
+                self._key_ty = {}
+            self._key_ty[key] = pr[1]["ty"]
+            return key
+        return None
 
     def val(self, st, op):
         if op.get("k") == "const":
@@ -138,6 +153,10 @@ class Interval:
                 r = _RMP_MARKER_PAYLOAD.get(p["pr"][0].get("variant"))
                 if r is not None:
                     return (r,)
+            pk = self.payload_key(op)
+            if pk is not None:
+                v = st.get(pk)
+                return v if v is not None else (INT_RANGE[self._key_ty[pk]],)
         return None
 
     def val_or_pointee(self, st, op):
@@ -458,7 +477,7 @@ class Interval:
         def side(x):
             if is_place(x) and not x["p"]["pr"]:
                 return x["p"]["l"]
-            return None
+            return self.payload_key(x)
 
         la, lb = side(a), side(b)
         va, vb = self.val(st, a), self.val(st, b)
